@@ -313,6 +313,19 @@ func (m *locker) try(ctx context.Context, cancel context.CancelFunc, name string
 				}
 				m.mu.Unlock()
 			}
+			if released == m.totalcnt && atomic.LoadInt32(&failures) >= m.majority && atomic.LoadInt32(&acquired) > 0 {
+				// a failed attempt that held some keys for a moment may have made another waiter of this
+				// very locker fail on them; with NOLOOP tracking the locker is not told about its own
+				// deletions, so hand a token to the gate now that the keys are released.
+				m.mu.RLock()
+				if m.gates != nil {
+					select {
+					case g.ch <- struct{}{}:
+					default:
+					}
+				}
+				m.mu.RUnlock()
+			}
 			if released == m.totalcnt {
 				close(done)
 			}
